@@ -1053,7 +1053,17 @@ func (b *Bitmap) writeToUnoptimized(w io.Writer) (n int64, err error) {
 	// Remove empty containers before persisting.
 	//b.removeEmptyContainers()
 
-	containerCount := b.Containers.Size() - b.countEmptyContainers()
+	// Count what is written below: the non-empty containers. (Size() minus
+	// the empty ones is not that number: the slice-backed collection keeps
+	// the keys of containers that Optimize dropped, and its iterator - which
+	// countEmptyContainers uses - skips them.)
+	containerCount := 0
+	cntIter, _ := b.Containers.Iterator(0)
+	for cntIter.Next() {
+		if _, c := cntIter.Value(); c.N() > 0 {
+			containerCount++
+		}
+	}
 	headerSize := headerBaseSize
 	byte2 := make([]byte, 2)
 	byte4 := make([]byte, 4)
